@@ -147,39 +147,58 @@ def memberNameCheck (field : Field) (ty : TypePath) (k : Kind) (noAttrMsg : Stri
     else errors
   | none => errors.insert noAttrMsg
 
+/-- first loop of `validate_fields`, one field: `#[ghost]` without default where a From impl needs one; permeating repeat -/
+def ghostDefaultPass (fromTypePaths : List TypePath) (field : Field) (es : Errors) : Errors :=
+  let ghostMsg (tp : TypePath) :=
+    "Member instruction #[ghost(...)] for member '" ++ field.member.str ++ "' should provide default value for type " ++ tp.pathStr
+  let es := field.attrs.ghostAttrs.foldl (fun es ga =>
+    if ga.attr.action.isSome then es else
+    match ga.attr.containerTy with
+    | some tp => if fromTypePaths.contains tp then es.insert (ghostMsg tp) else es
+    | none => fromTypePaths.foldl (fun es tp => es.insert (ghostMsg tp)) es) es
+  match field.attrs.repeat_ with
+  | some r => if r.permeate then es.insert "Permeating repeat instruction is only applicable to enum variant fields." else es
+  | none => es
+
+/-- second loop of `validate_fields`, one `#[child]` instruction -/
+def childPass (structAttrs : DataTypeAttrs) (typePaths intoTypePaths : List TypePath) (ca : ChildAttr) (es : Errors) : Errors :=
+  match ca.containerTy with
+  | some tp =>
+    let es := if !typePaths.contains tp then es.insert (noMatch tp) else es
+    if intoTypePaths.contains tp then checkChildErrors ca structAttrs tp es else es
+  | none => intoTypePaths.foldl (fun es tp => checkChildErrors ca structAttrs tp es) es
+
+/-- third loop of `validate_fields`, one (trait instruction, kind): tuple struct mapped `as {}` -/
+def namePass (input : Struct) (dta : TraitAttrCore) (k : Kind) (es : Errors) : Errors :=
+  if dta.quickReturn.isNone && dta.typeHint == .struct then
+    input.fields.foldl (fun es field =>
+      memberNameCheck field dta.ty k
+        ("Member " ++ field.member.str ++ " should have member trait instruction with field name" ++
+          (if k.isFrom then " or an action" else "") ++ ", that corresponds to #[" ++ fallibleKindName k false ++
+          "(" ++ dta.ty.pathStr ++ "...)] trait instruction") es) es
+  else es
+
 /-- `validate_fields` -/
 def validateFields (input : Struct) (byKind : List (TraitAttrCore × Kind)) (typePaths : List TypePath) (errors : Errors) : Errors :=
   let intoTypePaths := uniqueInOrder ((byKind.filter fun (_, k) => !k.isFrom && !k.isIntoExisting).map (·.1.ty))
   let fromTypePaths := uniqueInOrder ((byKind.filter fun (x, k) => x.update.isNone && k.isFrom).map (·.1.ty))
-  let ghostMsg (f : Field) (tp : TypePath) :=
-    "Member instruction #[ghost(...)] for member '" ++ f.member.str ++ "' should provide default value for type " ++ tp.pathStr
-  let es := input.fields.foldl (fun es field =>
-    let es := field.attrs.ghostAttrs.foldl (fun es ga =>
-      if ga.attr.action.isSome then es else
-      match ga.attr.containerTy with
-      | some tp => if fromTypePaths.contains tp then es.insert (ghostMsg field tp) else es
-      | none => fromTypePaths.foldl (fun es tp => es.insert (ghostMsg field tp)) es) es
-    match field.attrs.repeat_ with
-    | some r => if r.permeate then es.insert "Permeating repeat instruction is only applicable to enum variant fields." else es
-    | none => es) errors
-  let es := (input.fields.flatMap (·.attrs.childAttrs)).foldl (fun es ca =>
-    match ca.containerTy with
-    | some tp =>
-      let es := if !typePaths.contains tp then es.insert (noMatch tp) else es
-      if intoTypePaths.contains tp then checkChildErrors ca input.attrs tp es else es
-    | none => intoTypePaths.foldl (fun es tp => checkChildErrors ca input.attrs tp es) es) es
+  let es := input.fields.foldl (fun es field => ghostDefaultPass fromTypePaths field es) errors
+  let es := (input.fields.flatMap (·.attrs.childAttrs)).foldl (fun es ca => childPass input.attrs typePaths intoTypePaths ca es) es
   if !input.namedFields then
-    byKind.foldl (fun es (dta, k) =>
-      if dta.quickReturn.isNone && dta.typeHint == .struct then
-        input.fields.foldl (fun es field =>
-          memberNameCheck field dta.ty k
-            ("Member " ++ field.member.str ++ " should have member trait instruction with field name" ++
-              (if k.isFrom then " or an action" else "") ++ ", that corresponds to #[" ++ fallibleKindName k false ++
-              "(" ++ dta.ty.pathStr ++ "...)] trait instruction") es) es
-      else es) es
+    byKind.foldl (fun es x => namePass input x.1 x.2 es) es
   else es
 
 def kindOrderInto : List Kind := [.ownedInto, .refInto, .ownedIntoExisting, .refIntoExisting, .fromOwned, .fromRef]
+
+/-- one (trait instruction, kind) of `validate_variant_fields` -/
+def variantNamePass (input : Variant) (a : TraitAttr) (k : Kind) (es : Errors) : Errors :=
+  if a.core.quickReturn.isNone && ((input.attrs.typeHint a.core.ty).map (·.typeHint)).getD .unspecified == .struct then
+    input.fields.foldl (fun es field =>
+      memberNameCheck field a.core.ty k
+        ("Member " ++ field.member.str ++ " of a variant " ++ input.ident ++ " should have member trait instruction with field name" ++
+          (if k.isFrom then " or an action" else "") ++ ", that corresponds to #[" ++ fallibleKindName k a.fallible ++
+          "(" ++ a.core.ty.pathStr ++ "...)] trait instruction") es) es
+  else es
 
 /-- `validate_variant_fields` -/
 def validateVariantFields (input : Variant) (dta : DataTypeAttrs) (errors : Errors) : Errors :=
@@ -187,15 +206,44 @@ def validateVariantFields (input : Variant) (dta : DataTypeAttrs) (errors : Erro
     let byKind : List (TraitAttr × Kind) :=
       (kindOrderInto.flatMap fun k => (dta.iterForKind k false).map fun x => (x, k)) ++
       (kindOrderInto.flatMap fun k => (dta.iterForKind k true).map fun x => (x, k))
-    byKind.foldl (fun es (a, k) =>
-      if a.core.quickReturn.isNone && ((input.attrs.typeHint a.core.ty).map (·.typeHint)).getD .unspecified == .struct then
-        input.fields.foldl (fun es field =>
-          memberNameCheck field a.core.ty k
-            ("Member " ++ field.member.str ++ " of a variant " ++ input.ident ++ " should have member trait instruction with field name" ++
-              (if k.isFrom then " or an action" else "") ++ ", that corresponds to #[" ++ fallibleKindName k a.fallible ++
-              "(" ++ a.core.ty.pathStr ++ "...)] trait instruction") es) es
-      else es) errors
+    byKind.foldl (fun es x => variantNamePass input x.1 x.2 es) errors
   else errors
+
+/-- the body of the `for member in input.get_members()` loop of `validate` -/
+def validateMember (input : DataType) (isEnum : Bool) (typePaths : List TypePath) (byKind : List (TraitAttrCore × Kind))
+    (es : Errors) (member : DataTypeMember) : Errors :=
+  let ma := member.attrs
+  let es := validateDedicatedMemberAttrs (ma.attrs.map (·.attr.containerTy)) none typePaths es
+  let es := validateDedicatedMemberAttrs (ma.ghostAttrs.map (·.attr.containerTy)) none typePaths es
+  let es := match member with
+    | .field _ =>
+      let es := barkAtMemberAttr ma.litAttrs.length "literal" es
+      let es := barkAtMemberAttr ma.patAttrs.length "pattern" es
+      let es := barkAtMemberAttr ma.typeHintAttrs.length "type_hint" es
+      let es := barkAtMemberAttr (ma.ghostsAttrs.filter fun x => x.appl.get .ownedInto && x.appl.get .refInto).length "ghosts" es
+      let es := barkAtMemberAttr (ma.ghostsAttrs.filter fun x => x.appl.get .ownedInto && !x.appl.get .refInto).length "ghosts_owned" es
+      let es := barkAtMemberAttr (ma.ghostsAttrs.filter fun x => !x.appl.get .ownedInto && x.appl.get .refInto).length "ghosts_ref" es
+      let es := validateDedicatedMemberAttrs (ma.parentAttrs.map (·.containerTy)) (some "parent") typePaths es
+      let named := match input with | .struct s => s.namedFields | .enum _ => false
+      validateParentAttrs named ma.parentAttrs byKind es
+    | .variant v =>
+      let es := barkAtMemberAttr ma.parentAttrs.length "parent" es
+      let es := validateDedicatedMemberAttrs (ma.litAttrs.map (·.containerTy)) (some "literal") typePaths es
+      let es := validateDedicatedMemberAttrs (ma.patAttrs.map (·.containerTy)) (some "pattern") typePaths es
+      let es := validateDedicatedMemberAttrs (ma.typeHintAttrs.map (·.containerTy)) (some "type_hint") typePaths es
+      -- the payload fields of the variant
+      v.fields.foldl (fun es f =>
+        let es := validateDedicatedMemberAttrs (f.attrs.attrs.map (·.attr.containerTy)) none typePaths es
+        let es := validateDedicatedMemberAttrs (f.attrs.ghostAttrs.map (·.attr.containerTy)) none typePaths es
+        validateMemberErrorInstrs isEnum f.attrs.errorInstrs es) es
+  validateMemberErrorInstrs isEnum ma.errorInstrs es
+
+def validateKinds : List Kind := [.fromOwned, .fromRef, .ownedInto, .refInto, .ownedIntoExisting, .refIntoExisting]
+
+/-- `data_type_attrs_by_kind` -/
+def attrsByKind (attrs : DataTypeAttrs) : List (TraitAttrCore × Kind) :=
+  (kindOrderInto.flatMap fun k => (attrs.iterForKindCore k false).map fun x => (x, k)) ++
+  (kindOrderInto.flatMap fun k => (attrs.iterForKindCore k true).map fun x => (x, k))
 
 /-- `validate`: the diagnostics in report order (empty = accepted) -/
 def validate (input : DataType) : Errors :=
@@ -203,42 +251,14 @@ def validate (input : DataType) : Errors :=
   let isEnum := match input with | .enum _ => true | .struct _ => false
   let es : Errors := if attrs.attrs.isEmpty then ["At least one trait instruction is expected."] else []
   let es := validateErrorInstrs isEnum attrs.errorInstrs es
-  let kinds : List Kind := [.fromOwned, .fromRef, .ownedInto, .refInto, .ownedIntoExisting, .refIntoExisting]
-  let es := kinds.foldl (fun es k => validateStructAttrs (attrs.iterForKindCore k false) false es) es
-  let es := kinds.foldl (fun es k => validateStructAttrs (attrs.iterForKindCore k true) true es) es
+  let es := validateKinds.foldl (fun es k => validateStructAttrs (attrs.iterForKindCore k false) false es) es
+  let es := validateKinds.foldl (fun es k => validateStructAttrs (attrs.iterForKindCore k true) true es) es
   let typePaths := attrs.attrs.map (·.core.ty)
-  let es := kinds.foldl (fun es k => validateGhostAttrs k attrs.ghostsAttrs typePaths es) es
+  let es := validateKinds.foldl (fun es k => validateGhostAttrs k attrs.ghostsAttrs typePaths es) es
   let es := validateChildParentsAttrs attrs.childParentsAttrs typePaths es
   let es := validateWhereAttrs attrs.whereAttrs typePaths es
-  let byKind : List (TraitAttrCore × Kind) :=
-    (kindOrderInto.flatMap fun k => (attrs.iterForKindCore k false).map fun x => (x, k)) ++
-    (kindOrderInto.flatMap fun k => (attrs.iterForKindCore k true).map fun x => (x, k))
-  let es := input.members.foldl (fun es member =>
-    let ma := member.attrs
-    let es := validateDedicatedMemberAttrs (ma.attrs.map (·.attr.containerTy)) none typePaths es
-    let es := validateDedicatedMemberAttrs (ma.ghostAttrs.map (·.attr.containerTy)) none typePaths es
-    let es := match member with
-      | .field _ =>
-        let es := barkAtMemberAttr ma.litAttrs.length "literal" es
-        let es := barkAtMemberAttr ma.patAttrs.length "pattern" es
-        let es := barkAtMemberAttr ma.typeHintAttrs.length "type_hint" es
-        let es := barkAtMemberAttr (ma.ghostsAttrs.filter fun x => x.appl.get .ownedInto && x.appl.get .refInto).length "ghosts" es
-        let es := barkAtMemberAttr (ma.ghostsAttrs.filter fun x => x.appl.get .ownedInto && !x.appl.get .refInto).length "ghosts_owned" es
-        let es := barkAtMemberAttr (ma.ghostsAttrs.filter fun x => !x.appl.get .ownedInto && x.appl.get .refInto).length "ghosts_ref" es
-        let es := validateDedicatedMemberAttrs (ma.parentAttrs.map (·.containerTy)) (some "parent") typePaths es
-        let named := match input with | .struct s => s.namedFields | .enum _ => false
-        validateParentAttrs named ma.parentAttrs byKind es
-      | .variant v =>
-        let es := barkAtMemberAttr ma.parentAttrs.length "parent" es
-        let es := validateDedicatedMemberAttrs (ma.litAttrs.map (·.containerTy)) (some "literal") typePaths es
-        let es := validateDedicatedMemberAttrs (ma.patAttrs.map (·.containerTy)) (some "pattern") typePaths es
-        let es := validateDedicatedMemberAttrs (ma.typeHintAttrs.map (·.containerTy)) (some "type_hint") typePaths es
-        -- the payload fields of the variant
-        v.fields.foldl (fun es f =>
-          let es := validateDedicatedMemberAttrs (f.attrs.attrs.map (·.attr.containerTy)) none typePaths es
-          let es := validateDedicatedMemberAttrs (f.attrs.ghostAttrs.map (·.attr.containerTy)) none typePaths es
-          validateMemberErrorInstrs isEnum f.attrs.errorInstrs es) es
-    validateMemberErrorInstrs isEnum ma.errorInstrs es) es
+  let byKind := attrsByKind attrs
+  let es := input.members.foldl (validateMember input isEnum typePaths byKind) es
   match input with
   | .struct s => validateFields s byKind typePaths es
   | .enum e => e.variants.foldl (fun es v => validateVariantFields v attrs es) es
